@@ -25,6 +25,33 @@ def obound(f):
         return "None"
 
 
+def build2(case, build, term):
+    """(reference, observed): the object a public constructor builds from `term` with every `Iterable`-typed argument
+    given as a list, and the one built with those arguments handed over in the case's iteration mode (`it`: generator,
+    iterator, map object, tuple, re-iterable non-sequence; absent = the list, both are then one object).  The case's
+    INPUT literal is the walk of the reference -- the term as requested from the constructor --, everything observed
+    comes from the second object: a constructor that consumes an iterable twice / indexes it / takes its length shows
+    as a decoded object that is not the input attribute by attribute (or as a raise on encodable input)."""
+    ref = build(term)
+    m = case.get("it")
+    if m is None:
+        return ref, ref
+    with T.iter_mode(m):
+        try:
+            return ref, build(term)
+        except WalkError:
+            raise
+        except Exception as e:                    # the reference was built: the constructor refuses the iterable
+            return ref, BuildRaised(type(e).__name__)
+
+
+class BuildRaised:
+    def __init__(self, name):
+        self.name = name
+
+
+ORD_B = {"t": "Sum", "s": "Unit", "size": 2}
+ORD_G = lambda i, o: {"t": "G", "input": i, "output": o, "runtime_reqs": []}
 PHANTOM_BODY = {"t": "G", "input": [{"t": "I"}], "output": [], "runtime_reqs": []}
 PHANTOM_SIG = {"params": [{"tp": "BoundedNat", "bound": None}], "body": PHANTOM_BODY}
 
@@ -38,7 +65,9 @@ class C05(fw.Prop):
     rule = ("grammar-based abstract terms built with the public constructors; non-trivial = the term contains an "
             "extension type / sugar class / nested sum / function type, or is a foreign serial term with an omitted "
             "default or permuted keys; every operation put on a node of a HUGR that goes through Hugr.to_json / load_json; "
-            "foreign operations and documents written by hand (no library encoder involved) with coinciding attributes")
+            "foreign operations and documents written by hand (no library encoder involved) with coinciding attributes; "
+            "Iterable-typed constructor arguments handed over as generators / iterators / map objects / tuples; hand-written "
+            "documents and API-built HUGRs with state-order edges on both sides of nodes of asymmetric arity")
     trusted = ["pydantic: JSON text <-> serial models (monitored per case: validate(dump(s)) == s)",
                "fail-closed walkers of pydantic instances and API objects (harness/c05terms.py)"]
     assumptions = ["well-formed terms: indices, sizes and tags are non-negative; names are strings"]
@@ -112,6 +141,44 @@ class C05(fw.Prop):
                                  [[["UnitSum", 2]], [["UnitSum", 2]], []], [["N", 7]]]},
             {"kind": "hop", "o": ["LoadFunc", [[["Type", "A"], ["Nat", 5]], [[["USize"]], [], []]], [[["USize"]], [], []],
                                   [["T", ["Qubit"]], ["N", 1]]]},
+            # seeded C05-g: val.Left / val.Right walked their `vals: Iterable[Value]` twice (type, then payload): a one-shot
+            # iterable gave the right Either type and an EMPTY payload.  `it` = how every Iterable-typed constructor
+            # argument of the term is handed over (generator / iterator / map object / tuple / re-iterable non-sequence)
+            {"kind": "valsugar", "s": ["VRight", [["UnitSum", 1]], [["VTrue"], ["VFalse"]]], "it": "gen"},
+            {"kind": "valsugar", "s": ["VLeft", [["VUnit"]], [["UnitSum", 2], ["UnitSum", 2]]], "it": "iter"},
+            {"kind": "val", "v": ["VTuple", [["VRight", [["Qubit"]], [["VInt", 3, 5], ["VLeft", [["VTrue"]], []]]]]], "it": "map"},
+            {"kind": "hop", "o": ["Const", ["VLeft", [["VUnit"], ["VFalse"]], [["USize"]]]], "it": "gen"},
+            {"kind": "sugar", "s": ["Either", [["Qubit"]], [["UnitSum", 2], ["USize"]]], "it": "iter"},
+            {"kind": "ty", "t": ["Func", [["Either", [["Qubit"]], []]], [["Either", [], [["USize"], ["Qubit"]]]], []], "it": "gen"},
+            {"kind": "op", "o": ["Tag", 1, ["Either", [["Qubit"]], [["UnitSum", 2]]]], "it": "reiter"},
+            # seeded C05-h: Hugr._to_serial cached the offset of the order port per node, without the direction: a dataflow
+            # node with an order edge on BOTH sides and different numbers of input and output ports had one of them
+            # written at the other side's port count.  A foreign document (order edges without offsets, the hugr-rs way;
+            # node 5 has two inputs and one output, node 4 none) ...
+            {"kind": "doc", "j": {"version": "live", "nodes": [
+                {"parent": 0, "op": "Module"},
+                {"parent": 0, "op": "FuncDefn", "name": "main", "signature": {"params": [], "body": ORD_G([ORD_B, ORD_B], [ORD_B])}},
+                {"parent": 1, "op": "Input", "types": [ORD_B, ORD_B]}, {"parent": 1, "op": "Output", "types": [ORD_B]},
+                {"parent": 1, "op": "Extension", "extension": "demo.ext", "name": "Init", "signature": ORD_G([], []),
+                 "description": "", "args": []},
+                {"parent": 1, "op": "Extension", "extension": "demo.ext", "name": "And", "signature": ORD_G([ORD_B, ORD_B], [ORD_B]),
+                 "description": "", "args": []}],
+                "edges": [[[2, 0], [5, 0]], [[2, 1], [5, 1]], [[5, 0], [3, 0]],
+                          [[2, None], [4, None]], [[4, None], [5, None]], [[5, None], [3, None]]],
+                "metadata": [None, None, None, None, {"note": "first"}, None], "encoder": "not hugr-py"}},
+            # ... the same with the order port's explicit offset on one end of each edge, through a Call (static port counted)
+            {"kind": "doc", "j": {"version": "live", "nodes": [
+                {"parent": 0, "op": "Module"},
+                {"parent": 0, "op": "FuncDecl", "name": "f", "signature": {"params": [], "body": ORD_G([ORD_B], [ORD_B, ORD_B, ORD_B])}},
+                {"parent": 0, "op": "FuncDefn", "name": "main", "signature": {"params": [], "body": ORD_G([ORD_B], [])}},
+                {"parent": 2, "op": "Input", "types": [ORD_B]}, {"parent": 2, "op": "Output", "types": []},
+                {"parent": 2, "op": "Call", "func_sig": {"params": [], "body": ORD_G([ORD_B], [ORD_B, ORD_B, ORD_B])}, "type_args": [],
+                 "instantiation": ORD_G([ORD_B], [ORD_B, ORD_B, ORD_B])}],
+                "edges": [[[3, 0], [5, 0]], [[1, 0], [5, 1]], [[3, 1], [5, None]], [[5, None], [4, 0]]]}},
+            # ... and the operation on a node of a HUGR built through the public API, an order link on both sides
+            {"kind": "hop", "o": ["Custom", "And", [[["UnitSum", 2], ["UnitSum", 2]], [["UnitSum", 2]], []], "", "demo.ext", []],
+             "wire": True},
+            {"kind": "hop", "o": ["LoadConst", ["Qubit"]], "wire": True},
         ]
 
     def generate(self, rng, tier, ctx):
@@ -184,6 +251,18 @@ class C05(fw.Prop):
             cases.append({"kind": "doc", "j": O.gen_jcalldoc(rng)})
         for _ in range(60 * k):
             cases.append({"kind": rng.choice(["op", "hop"]), "o": O.gen_op_coinc(rng)})
+        # seeded round 4 (drawn after every older stream): Iterable-typed constructor arguments handed over as non-lists;
+        # hand-written documents with state-order chains through nodes of asymmetric arity; dataflow operations wired
+        # with an order link on both sides in a HUGR built through the public API
+        for _ in range(150 * k):
+            cases.append(O.gen_iter_case(rng))
+        for _ in range(60 * k):
+            cases.append({"kind": "doc", "j": O.gen_jorderdoc(rng)})
+        for kind in O.WIRE_KINDS:
+            for _ in range(5 * k):
+                cases.append({"kind": "hop", "o": O.gen_op(rng, kind, rng.choice([1, 2])), "wire": True})
+        for _ in range(15 * k):
+            cases.append({"kind": "hop", "o": O.gen_op_coinc(rng), "wire": True})
         import glob, os
         for f in sorted(glob.glob(os.path.join(fw.REPO, "resources", "test", "*.json")) +
                         glob.glob(os.path.join(fw.REPO, "hugr-core", "src", "hugr", "serialize", "upgrade", "testcases", "*.json"))):
@@ -198,8 +277,10 @@ class C05(fw.Prop):
         e = T.env()
         k = case["kind"]
         if k == "ty":
-            t = T.build_ty(case["t"])
-            o = {"t": T.lit_ty_obj(t), "b1": obound(t.type_bound)}
+            t_ref, t = build2(case, T.build_ty, case["t"])
+            if isinstance(t, BuildRaised):
+                return {"t": T.lit_ty_obj(t_ref), "b1": obound(t_ref.type_bound), "raised": t.name}
+            o = {"t": T.lit_ty_obj(t_ref), "b1": obound(t.type_bound)}
             r = guard(lambda: t._to_serial_root())
             if r[0] == "raised":
                 return {**o, "raised": r[1]}
@@ -208,8 +289,10 @@ class C05(fw.Prop):
             return {**o, "raised": None, "ser": T.walk_sty(s), "deser": T.lit_ty_obj(d),
                     "reser": T.walk_sty(d._to_serial_root()), "b2": obound(d.type_bound), "json_ok": T.json_identity(s)}
         if k == "arg":
-            a = T.build_arg(case["a"])
-            o = {"a": T.lit_arg_obj(a)}
+            a_ref, a = build2(case, T.build_arg, case["a"])
+            if isinstance(a, BuildRaised):
+                return {"a": T.lit_arg_obj(a_ref), "raised": a.name}
+            o = {"a": T.lit_arg_obj(a_ref)}
             r = guard(lambda: a._to_serial_root())
             if r[0] == "raised":
                 return {**o, "raised": r[1]}
@@ -226,7 +309,9 @@ class C05(fw.Prop):
         if k == "sugar":
             tys = e["tys"]
             s = case["s"]
-            obj = T.build_ty(s)
+            ref, obj = build2(case, T.build_ty, s)
+            bad = isinstance(obj, BuildRaised)
+            obj = ref if bad else obj
             rows = ([T.build_row(s[1])] if s[0] == "Tuple" else [[], T.build_row(s[1])] if s[0] == "Option" else
                     [T.build_row(s[1]), T.build_row(s[2])] if s[0] == "Either" else [[] for _ in range(s[1])])
             gen = tys.Sum(rows)
@@ -234,7 +319,7 @@ class C05(fw.Prop):
                    gapp("SgOption", T.lit_row_obj(rows[1])) if s[0] == "Option" else
                    gapp("SgEither", T.lit_row_obj(rows[0]), T.lit_row_obj(rows[1])) if s[0] == "Either" else
                    gapp("SgUnitSum", gnat(s[1])))
-            py_eq = bool((obj == gen) and (gen == obj) and not (obj != gen) and obj.type_bound() == gen.type_bound()
+            py_eq = bool(not bad and (obj == gen) and (gen == obj) and not (obj != gen) and obj.type_bound() == gen.type_bound()
                          and isinstance(obj, tys.Sum) and obj.variant_rows == gen.variant_rows)
             return {"s": lit, "py_eq": py_eq, "ser_s": T.walk_sty(obj._to_serial_root()),
                     "ser_g": T.walk_sty(gen._to_serial_root()), "b_s": obound(obj.type_bound), "b_g": obound(gen.type_bound),
@@ -245,8 +330,11 @@ class C05(fw.Prop):
             return {"s": T.walk_sty(s), "deser": T.lit_ty_obj(d), "reser": T.walk_sty(d._to_serial_root())}
         if k == "val":
             tab = O.Tab()
-            v = O.build_val(case["v"])
-            o = {"v": O.lit_val_obj(v, tab), "b1": obound(lambda: v.type_().type_bound())}
+            v_ref, v = build2(case, O.build_val, case["v"])
+            if isinstance(v, BuildRaised):
+                return {"v": O.lit_val_obj(v_ref, tab), "b1": obound(lambda: v_ref.type_().type_bound()), "tab": tab.lit(),
+                        "raised": v.name}
+            o = {"v": O.lit_val_obj(v_ref, tab), "b1": obound(lambda: v.type_().type_bound())}
             r = guard(lambda: v._to_serial_root())
             if r[0] == "raised":
                 return {**o, "tab": tab.lit(), "raised": r[1]}
@@ -260,7 +348,9 @@ class C05(fw.Prop):
             val, tys = e["val"], e["tys"]
             s = case["s"]
             tab = O.Tab()
-            obj = O.build_val(s)
+            ref, obj = build2(case, O.build_val, s)
+            bad = isinstance(obj, BuildRaised)
+            obj = ref if bad else obj
             vals = lambda l: [O.build_val(x) for x in l]
             lv = lambda l: glist(O.lit_val_obj(x, tab) for x in l)
             t = s[0]
@@ -287,7 +377,7 @@ class C05(fw.Prop):
                 vs = vals(s[1])
                 gen = val.Sum(0, tys.Sum([[x.type_() for x in vs]]), vs)
                 lit = gapp("VgTuple", lv(vs))
-            py_eq = bool(obj == gen and gen == obj and not (obj != gen) and obj.type_() == gen.type_()
+            py_eq = bool(not bad and obj == gen and gen == obj and not (obj != gen) and obj.type_() == gen.type_()
                          and obj.type_().type_bound() == gen.type_().type_bound() and isinstance(obj, val.Sum))
             return {"s": lit, "tab": tab.lit(), "py_eq": py_eq, "ser_s": O.walk_svalue(obj._to_serial_root()),
                     "ser_g": O.walk_svalue(gen._to_serial_root()), "ty_s": T.walk_sty(obj.type_()._to_serial_root()),
@@ -299,9 +389,14 @@ class C05(fw.Prop):
             r0 = guard(lambda: O.build_op(case["o"]))
             if r0[0] == "raised":
                 return {"unbuildable": r0[1]}
-            op = r0[1]
+            op_ref = op = r0[1]
+            if case.get("it"):
+                # the same term with its `Iterable`-typed constructor arguments handed over as non-lists (see build2)
+                op = build2(case, O.build_op, case["o"])[1]
+                if isinstance(op, BuildRaised):
+                    return {"o": O.lit_op_obj(op_ref, tab), "tab": tab.lit(), "raised": op.name}
             # a polymorphic Call / LoadFunc is the operation as requested from the constructor (which keeps what it is given)
-            o = {"o": O.requested_call_lit(case["o"]) or O.lit_op_obj(op, tab), "f1": O.facts_lit(op), "k1": O.kinds_lit(op)}
+            o = {"o": O.requested_call_lit(case["o"]) or O.lit_op_obj(op_ref, tab), "f1": O.facts_lit(op), "k1": O.kinds_lit(op)}
             r = guard(lambda: op._to_serial(Node(7)))
             if r[0] == "raised":
                 return {**o, "tab": tab.lit(), "raised": r[1]}
@@ -319,30 +414,57 @@ class C05(fw.Prop):
             r0 = guard(lambda: O.build_op(case["o"]))
             if r0[0] == "raised":
                 return {"unbuildable": r0[1]}
-            op = r0[1]
+            op_ref = op = r0[1]
+            if case.get("it"):
+                # the same term with its `Iterable`-typed constructor arguments handed over as non-lists (see build2)
+                op = build2(case, O.build_op, case["o"])[1]
+                if isinstance(op, BuildRaised):
+                    return {"o": O.lit_op_obj(op_ref, tab), "tab": tab.lit(), "raised": op.name}
             # a polymorphic Call / LoadFunc is the operation as requested from the constructor (which keeps what it is given)
-            o = {"o": O.requested_call_lit(case["o"]) or O.lit_op_obj(op, tab), "f1": O.facts_lit(op), "k1": O.kinds_lit(op)}
+            o = {"o": O.requested_call_lit(case["o"]) or O.lit_op_obj(op_ref, tab), "f1": O.facts_lit(op), "k1": O.kinds_lit(op)}
             r = guard(lambda: op._to_serial(Node(7)))
             if r[0] == "raised":
                 return {**o, "tab": tab.lit(), "raised": r[1]}
             s = e["sops"].OpType(root=r[1])
-            h = Hugr()
-            node = h.add_node(op, metadata={"k": [1, None], "n": None})
+            meta = {"k": [1, None], "n": None}
+            rows = O.wire_rows(op) if case.get("wire") else None
+            if rows is not None:
+                # seeded round 4: a dataflow operation wired between Input and Output of a DFG, a value link on every
+                # value port and a state-order link on BOTH sides of its node (building that HUGR is C03's business:
+                # if the builder calls refuse, the operation goes on the child of a module like every other one)
+                try:
+                    h, w_inp, w_out, node = O.wired_hugr(op, rows, meta)
+                    n_nodes, n_kids = 4, 3
+                except WalkError:
+                    raise
+                except Exception:
+                    rows = None
+            if rows is None:
+                h = Hugr()
+                node = h.add_node(op, metadata=meta)
+                n_nodes, n_kids = 2, 1
             r = guard(lambda: O.text_trip(h))
             if r[0] == "raised":
                 return {**o, "tab": tab.lit(), "raised": r[1]}
             txt, back, txt2 = r[1]
             kids = back.children(back.root)
-            if len(back) != 2 or len(kids) != 1:
+            if len(back) != n_nodes or len(kids) != n_kids:
                 return {**o, "tab": tab.lit(), "raised": "NodeCount"}
-            d = back[kids[0]].op
+            kid = kids[-1]
+            d = back[kid].op
             # the document written holds the operation's encoding (parent 0), and the loaded HUGR writes the same document
             doc = json.loads(txt)
-            in_doc = e["sops"].OpType.model_validate({**doc["nodes"][1], "parent": 7})
-            # (documents compared with their `edges` arrays -- here only those of documents embedded in function
-            # constants, the module has no edges -- as multisets: no order of that array is promised)
+            in_doc = e["sops"].OpType.model_validate({**doc["nodes"][node.idx], "parent": 7})
+            # (documents compared with their `edges` arrays as multisets: no order of that array is promised)
             same_doc = (O.walk_sop(in_doc) == O.walk_sop(s) and O.sort_edge_lists(json.loads(txt2)) == O.sort_edge_lists(doc)
-                        and back[kids[0]].metadata == {"k": [1, None], "n": None} and kids[0].idx == node.idx)
+                        and back[kid].metadata == meta and kid.idx == node.idx)
+            if rows is not None:
+                # every link of the HUGR that was written is a link of the HUGR that was read, between the same ports,
+                # the state-order links as state-order links (through Hugr.links / outgoing_ / incoming_order_links;
+                # nothing is said about the offsets the document spells them with)
+                lf = O.link_facts(back)
+                same_doc = (same_doc and lf == O.link_facts(h) and len(doc["edges"]) == len(lf[0]) and
+                            lf[1] == lf[2] == sorted([(w_inp.idx, node.idx), (node.idx, w_out.idx)]))
             o.update(raised=None, ser=O.walk_sop(s), deser=O.lit_op_obj(d, tab), reser=O.walk_sop(d._to_serial(Node(7))),
                      f2=O.facts_lit(d), k2=O.kinds_lit(d), json_ok=bool(same_doc), tab=tab.lit())
             return o
